@@ -243,7 +243,28 @@ def check(ctx):
     for n in ast.walk(mt):
         if isinstance(n, ast.AugAssign) and isinstance(n.target, ast.Attribute) and n.target.attr == "_pos":
             v = S.unparse(n.value)
-            ok = v in ("1", "length", "max(1, length)") and isinstance(n.op, ast.Add)
+
+            def is_length(e):
+                """a local that holds the matched length: unpacked from the candidate tuple at a position whose components are len(<matched text>)"""
+                if not isinstance(e, ast.Name):
+                    return False
+                d = _single_def(mt, e.id, before=n.lineno)
+                if isinstance(d, ast.Call) and S.unparse(d.func) == "len":
+                    return True
+                if isinstance(d, tuple) and d[0] == "unpack" and isinstance(d[2], ast.Name):
+                    idx, acc = d[1], d[2].id
+                    comps = [(a_.lineno, a_.value.elts[idx]) for a_ in ast.walk(mt) if isinstance(a_, ast.Assign) and isinstance(a_.value, ast.Tuple) and len(a_.value.elts) > idx and any(isinstance(t, ast.Name) and t.id == acc for t in a_.targets)]
+                    good = bool(comps)
+                    for ln_, c_ in comps:
+                        if isinstance(c_, ast.Name):
+                            dd = _single_def(mt, c_.id, before=ln_)
+                            c_ = dd if isinstance(dd, ast.AST) else c_
+                        good &= isinstance(c_, ast.Call) and S.unparse(c_.func) == "len"
+                    return good
+                return False
+            val = n.value
+            ok = isinstance(n.op, ast.Add) and ((isinstance(val, ast.Constant) and val.value == 1) or is_length(val)
+                                                or (isinstance(val, ast.Call) and S.unparse(val.func) == "max" and len(val.args) == 2 and isinstance(val.args[0], ast.Constant) and val.args[0].value == 1 and is_length(val.args[1])))
             ctx.oblige("R-C09.5", f"_pos += {v}", ok)
             if not ok:
                 viol("R-C09.5", f"advance-by:{v}", f"_pos is advanced by `{v}`: it must be the matched length (positive: no rule matches the empty string) or at least 1 on errors", "CLexer._match_token", n)
@@ -313,6 +334,8 @@ def scanner_sibling_rules(ctx, rule_blank, rule_line):
     if nblank < 3:
         raise AnalysisError("blank-skipping sites of the directive scanners not found")
     pl = lx.method("CLexer", "_handle_ppline")
+    names = _ppline_names(pl)
+    cursor, length, succ_name, skipper = names["cursor"], names["length"], names["success"], names["skipper"]
     rms = [c for c in ast.walk(pl) if isinstance(c, ast.Call) and S.unparse(c.func) in ("re.match", "re.search", "re.fullmatch")]
     if len(rms) < 2:
         raise AnalysisError("_handle_ppline: sub-pattern matches not found")
@@ -323,7 +346,7 @@ def scanner_sibling_rules(ctx, rule_blank, rule_line):
         extent = False
         if var:
             for n in ast.walk(pl):
-                if isinstance(n, ast.AugAssign) and S.unparse(n.target) == "pos" and n.lineno > c.lineno:
+                if isinstance(n, ast.AugAssign) and S.unparse(n.target) == cursor and n.lineno > c.lineno:
                     txt = S.unparse(n.value)
                     if f"{var}.group(0)" in txt or f"{var}.end(" in txt:
                         extent = True
@@ -335,12 +358,52 @@ def scanner_sibling_rules(ctx, rule_blank, rule_line):
         ctx.oblige(rule_line, f"_handle_ppline: extent of `{S.unparse(c)[:50]}` is consumed", ok)
         if not ok:
             viol(rule_line, f"ppline-extent:{S.unparse(c)[:60]}", f"_handle_ppline uses `{S.unparse(c)[:70]}` only as a yes/no test: a prefix match is accepted and the rest of that word is skipped unchecked (junk glued to a directive item is swallowed)", "CLexer._handle_ppline", c)
-    succ = [c for c in ast.walk(pl) if isinstance(c, ast.Call) and isinstance(c.func, ast.Name) and c.func.id == "success" and S.enclosing_function(c) is pl]
+    succ = [c for c in ast.walk(pl) if isinstance(c, ast.Call) and isinstance(c.func, ast.Name) and c.func.id == succ_name and S.enclosing_function(c) is pl]
+    if not succ:
+        raise AnalysisError("_handle_ppline: success exits not found")
     for c in succ:
-        dom = _dominated_by_end_test(c, pl)
+        dom = _dominated_by_end_test(c, pl, cursor, length)
         ctx.oblige(rule_line, f"_handle_ppline: success at line {c.lineno} only at the end of the line", dom)
         if not dom:
             viol(rule_line, f"ppline-end:{c.lineno}", "a success exit of _handle_ppline is not guarded by `pos >= line_len`: trailing text on the directive line would be skipped unchecked", "CLexer._handle_ppline", c)
+    # every point where the directive may end tolerates trailing blanks: the end-of-line test comes right after blank skipping
+    ends = [n for n in ast.walk(pl) if isinstance(n, ast.If) and S.enclosing_function(n) is pl and _is_end_test(n.test, cursor, length)]
+    if len(ends) < 2:
+        raise AnalysisError("_handle_ppline: end-of-line tests not found")
+    for n in ends:
+        blk, idx = _block_of(n)
+        prev = blk[idx - 1] if idx > 0 else None
+        ok = prev is not None and ((isinstance(prev, ast.Expr) and isinstance(prev.value, ast.Call) and isinstance(prev.value.func, ast.Name) and prev.value.func.id == skipper)
+                                   or (isinstance(prev, ast.While) and any(isinstance(x, ast.Constant) and x.value == " \t" for x in ast.walk(prev.test))))
+        ctx.oblige(rule_line, f"_handle_ppline: end test at line {n.lineno} follows blank skipping", ok)
+        if not ok:
+            viol(rule_line, f"ppline-trailing-blanks:{S.unparse(n.test)}:{idx}", f"in _handle_ppline the end-of-line test `{S.unparse(n.test)}` is not immediately preceded by blank skipping, unlike its siblings: a directive that ends here followed by "
+                 "spaces or tabs (`# 7 ` + newline) is not recognised as complete and is reported as invalid", "CLexer._handle_ppline", n)
+
+
+def _is_end_test(t, cursor, length):
+    return isinstance(t, ast.Compare) and len(t.ops) == 1 and isinstance(t.ops[0], (ast.GtE, ast.Eq)) and S.unparse(t.left) == cursor and S.unparse(t.comparators[0]) == length
+
+
+def _ppline_names(pl):
+    """local names of the #line scanner, found by role: cursor and length (from the blank-skipping loop), the blank skipper, the success exit"""
+    out = {}
+    for n in ast.walk(pl):
+        if isinstance(n, ast.While) and any(isinstance(x, ast.Constant) and x.value == " \t" for x in ast.walk(n.test)):
+            for c in ast.walk(n.test):
+                if isinstance(c, ast.Compare) and len(c.ops) == 1 and isinstance(c.ops[0], ast.Lt) and isinstance(c.left, ast.Name) and isinstance(c.comparators[0], ast.Name):
+                    out["cursor"], out["length"] = c.left.id, c.comparators[0].id
+            f = S.enclosing_function(n)
+            if f is not pl and isinstance(f, ast.FunctionDef):
+                out["skipper"] = f.name
+    for f in ast.walk(pl):
+        if isinstance(f, ast.FunctionDef) and f is not pl and any(isinstance(a, ast.Attribute) and isinstance(a.ctx, ast.Store) and a.attr == "_lineno" for a in ast.walk(f)):
+            out["success"] = f.name
+    for need in ("cursor", "length", "success"):
+        if need not in out:
+            raise AnalysisError(f"_handle_ppline: the {need} of the directive scanner was not found (scanner idiom changed)")
+    out.setdefault("skipper", None)
+    return out
 
 
 def _word_with_symbol(dfa, sym):
@@ -470,11 +533,11 @@ def _advanced_before(ret, fn):
     return False
 
 
-def _dominated_by_end_test(call, fn):
+def _dominated_by_end_test(call, fn, cursor="pos", length="line_len"):
     cur = call
     while cur is not None and cur is not fn:
         par = getattr(cur, "_parent", None)
-        if isinstance(par, ast.If) and cur in par.body and "pos >= line_len" in S.unparse(par.test):
+        if isinstance(par, ast.If) and cur in par.body and _is_end_test(par.test, cursor, length):
             return True
         # `break` out of the flag loop under the end test, followed by success after the loop
         blk, idx = _block_of(cur)
@@ -483,7 +546,7 @@ def _dominated_by_end_test(call, fn):
                 for b in ast.walk(st):
                     if isinstance(b, ast.Break):
                         g = getattr(b, "_parent", None)
-                        if isinstance(g, ast.If) and "pos >= line_len" in S.unparse(g.test):
+                        if isinstance(g, ast.If) and _is_end_test(g.test, cursor, length):
                             only = [x for x in ast.walk(st) if isinstance(x, ast.Break)]
                             if len(only) == 1:
                                 return True
